@@ -27,7 +27,7 @@ sys.path.insert(0, os.path.dirname(os.path.abspath(__file__)))
 import c06_world as W  # noqa: E402
 
 EXTRACTORS = ["Cache"]
-EXTRA_PROPS = ["C06Hash"]   # pyEq_hash, frozen_key_eq_iff (Props/C06Hash.lean)
+EXTRA_PROPS = ["C06Hash", "C06Num"]   # pyEq_hash, frozen_key_eq_iff (Props/C06Hash.lean); hashInt/hashDouble = numHash (Props/C06Num.lean)
 
 # ================================================================================================= (a) values
 from c06_world import (NP_KIND, KIND_TYPENAME, KIND_TYPE, INT_KINDS, FLOAT_KINDS, BOOL_KINDS, ALL_KINDS, Converter)  # noqa: E402,F401
@@ -487,6 +487,67 @@ def families(rng):
     return fams
 
 
+def mandatory_pairs():
+    """Directed ordered pairs (label, A, B) that every run executes as the two-call histories [A, B] and [B, A], each in its own
+    pristine interpreter (the first call of such a history *is* a cold run).  The two members of a pair agree in everything a
+    too-coarse memo might look at and differ in one thing that the outcome depends on:
+
+    keepdims   same operation, description and tensor, with / without `keepdims=True` (a memo per description or per
+               (description, shapes) that ignores the flag serves the wrong output shape);
+    factory    tensor factories whose *signature* decides which keywords einx passes (`name`, `arg_index`, `signature`):
+               `(shape)` / `(shape, **kwargs)` / `(shape, name)`, optional keywords of different names, functools.partial
+               objects (one class) around functions with different optional keywords, callable objects of two classes with
+               identical name and repr, lambdas; and two instances of one class that differ in state only (a legitimate hit:
+               the factory is an input of the compiled function, so each call must still see its own object);
+    adapter    two callables adapted with einx.numpy.adapt_numpylike_reduce / _elementwise whose generated source text is
+               identical (same `__name__`, same repr in the constant's comment line) while the object bound to `const1`
+               differs in state or in class (a compiled-function memo keyed by the text serves the other callable).
+    """
+    x = T((2, 3))
+    xf = T((2, 3), "float64")
+    kd = [("keepdims", ["bool", True])]
+    pairs = [
+        ("keepdims: sum 'a [b]' without / with keepdims=True", call("sum", "a [b]", [x]), call("sum", "a [b]", [x], kd)),
+        ("keepdims: sum 'a [b]' keepdims=False / True", call("sum", "a [b]", [x], [("keepdims", ["bool", False])]), call("sum", "a [b]", [x], kd)),
+        ("keepdims: max '[a] b' float64 without / with", call("max", "[a] b", [xf]), call("max", "[a] b", [xf], kd)),
+        ("keepdims: sum 'a [b]' graph=True without / with", call("sum", "a [b]", [x], graph=True), call("sum", "a [b]", [x], kd, graph=True)),
+        ("keepdims: adapted np.sum 'a [b]' without / with", call("adapter:reduce_sum", "a [b]", [x]), call("adapter:reduce_sum", "a [b]", [x], kd)),
+        ("keepdims: logsumexp 'a [b] c' without / with", call("logsumexp", "a [b] c", [T((2, 3, 2), "float64")]), call("logsumexp", "a [b] c", [T((2, 3, 2), "float64")], kd)),
+    ]
+
+    def fac(f):
+        return call("add", "a b, b -> a b", [x, ["F", f]])
+
+    for label, fa, fb in (
+            ("(shape) / (shape, **kwargs)", "sig_shape", "sig_shape_kwargs"),
+            ("(shape) / (shape, name)", "sig_shape", "sig_shape_name"),
+            ("(shape, **kwargs) / (shape, name)", "sig_shape_kwargs", "sig_shape_name"),
+            ("(shape, name='none') / (shape, arg_index=7)", "sig_shape_name_opt", "sig_shape_argindex_opt"),
+            ("functools.partial objects around functions with different optional keywords", "partial_name_opt", "partial_argindex_opt"),
+            ("callable objects of two classes with identical name and repr", "obj_repr_shape", "obj_repr_shape_name_opt"),
+            ("lambda shape / lambda shape, **kw", "lambda_shape", "lambda_shape_kwargs"),
+            ("two instances of one class, different state", "fill_1", "fill_2")):
+        pairs.append(("factory: " + label, fac(fa), fac(fb)))
+    pairs.append(("factory: (shape, arg_index=7) as first / second tensor of multiply", call("multiply", "a, a -> a", [["F", "sig_shape_argindex_opt"], T((4,))]),
+                  call("multiply", "a, a -> a", [T((4,)), ["F", "sig_shape_argindex_opt"]])))
+    pairs += [
+        ("adapter: reduce, same class, same text, different state", call("adapter:reduce_obj_k1", "a [b]", [x]), call("adapter:reduce_obj_k2", "a [b]", [x])),
+        ("adapter: reduce, two classes with identical name and repr", call("adapter:reduce_obj_sum", "a [b]", [x]), call("adapter:reduce_obj_max", "a [b]", [x])),
+        ("adapter: elementwise, same class, same text, different state", call("adapter:elementwise_obj_k1", "a b, b -> a b", [x, T((3,))]),
+         call("adapter:elementwise_obj_k2", "a b, b -> a b", [x, T((3,))])),
+    ]
+    return pairs
+
+
+def mandatory_histories(ctx):
+    out = []
+    for label, a, b in mandatory_pairs():
+        out.append((f"mandatory ordered pair ({label}; A then B)", [dict(a), dict(b)]))
+        out.append((f"mandatory ordered pair ({label}; B then A)", [dict(b), dict(a)]))
+        ctx.count("mandatory:" + label.split(":")[0])
+    return out
+
+
 MAX_REPORTS = 10
 WITH_STACKS = [["numpy.einsum"], ["numpy"], ["numpy.einsum", "numpy"], ["numpy.numpylike", "numpy.einsum", "numpy"], ["nosuch"], ["numpy", "nosuch"],
                ["numpy.einsum", "numpy", "numpy.einsum"], ["numpy", "numpy.einsum", "numpy", "numpy"]]
@@ -548,6 +609,10 @@ def check_histories(srv, histories):
     """Warm runs (one process per history, all in parallel) vs cold runs (one pristine process per distinct call).
     Returns per history the list of (index, warm, cold) mismatches, and the warm results."""
     warm = srv.run(histories)
+    # the first call of a history ran in a pristine interpreter: it is the cold run of that call (no extra fork needed)
+    for h, w in zip(histories, warm):
+        if h and len(w["outs"]) == len(h) and w["stacks"] == {"use_stack": 0, "dependon": 0} and not h[0].get("probe_key"):
+            srv.cold_memo.setdefault(json.dumps(strip_escape(h[0]), sort_keys=True), w["outs"][0])
     flat = [c for h in histories for c in h]
     cold_flat = srv.cold(flat)
     out = []
@@ -620,6 +685,8 @@ def report(ctx, srv, hist, probe, origin):
     w = warm["outs"][-1]
     c = srv.cold([probe])[0]
     sig = "history: " + " ; ".join(W.call_sig(x) for x in hist) + " ; probe: " + W.call_sig(probe) + f" ; warm={brief(w)} ; cold={brief(c)}"
+    if brief(w) == brief(c) and "array" in w.get("ok", {}) and "array" in c.get("ok", {}):
+        sig += f" ; values differ: warm {w['ok']['array']['v'][:4]} cold {c['ok']['array']['v'][:4]}"
     if warm["stacks"] != {"use_stack": 0, "dependon": 0}:
         sig += f" ; context stacks left behind after the history: use_stack={warm['stacks']['use_stack']} dependon={warm['stacks']['dependon']}"
     ctx.violation(sig, {"kind": "outcome of the last call depends on the earlier calls (warm process vs pristine interpreter)",
@@ -642,12 +709,12 @@ def strip_ctx(c):
     return {k: v for k, v in c.items() if k not in ("with", "escape")}
 
 
-def search(ctx, srv, plan, n_hist, directed):
+def search(ctx, srv, plan, n_hist, directed, mandatory=()):
     rng = ctx.rng
     found = []
     roots = {}       # root key -> True once reported (or explained)
 
-    histories = []
+    histories = list(mandatory)
     for pair in directed:
         histories.append(("directed pair built from a key collision reported by the value correspondence", pair))
     for fam in plan.fams:
@@ -843,6 +910,59 @@ def _hash_exact(x):
     return isinstance(x, (int, float, bool, np.integer, np.floating, np.bool_, str, type(None), type)) and not isinstance(x, inspect._ParameterKind)
 
 
+def correspondence_numhash(ctx, drv):
+    """CPython's `hash` of numbers against the three functions of the model: the specification `numHash` (what `pyHash` uses),
+    and the algorithms `hashInt` (long_hash) / `hashDouble` (_Py_HashDouble) of Cache/NumHash.lean, which Props/C06Num.lean
+    proves equal to it.  Ints of up to ~200 bits, doubles with random 53-bit mantissas and exponents in [-90, 40], integral
+    doubles, numpy scalars of every kind."""
+    rng = ctx.rng
+    vals = []
+    for v in INT_POOL + [2 ** 53 - 1, 2 ** 53, -(2 ** 53) + 1, 2 ** 30 - 1, 2 ** 30, 2 ** 60, 2 ** 122 - 2, -(2 ** 61 - 1), 2 ** 61 - 2]:
+        vals.append(("pyInt", v))
+        if abs(v) < 2 ** 53:
+            vals.append(("pyFloat", float(v)))
+    n = 400 if ctx.quick else 6000
+    for _ in range(n):
+        r = rng.random()
+        if r < 0.3:
+            v = rng.getrandbits(rng.choice([5, 29, 30, 31, 59, 60, 61, 62, 64, 90, 121, 200])) * rng.choice([1, -1])
+            vals.append(("pyInt", v))
+        elif r < 0.6:
+            m = rng.getrandbits(rng.choice([1, 3, 24, 28, 29, 52, 53])) * rng.choice([1, -1])
+            vals.append(("pyFloat", float(m) * 2.0 ** rng.randint(-90, 40)))
+        elif r < 0.75:
+            v = rng.getrandbits(rng.choice([3, 20, 40, 53])) * rng.choice([1, -1])
+            vals.append(("pyFloat", float(v)))
+            vals.append(("pyInt", v))
+        else:
+            kind = rng.choice(ALL_KINDS)
+            x = gen_scalar(rng)
+            if x is not None:
+                vals.append((next(k for k, t in KIND_TYPE.items() if type(x) is t), x))
+    reqs, meta = [], []
+    for kind, v in vals:
+        x = KIND_TYPE[kind](v) if not isinstance(v, (np.generic,)) and kind not in ("pyInt", "pyFloat", "pyBool") else v
+        num, e = W._dy(x)
+        reqs.append({"kind": "numhash", "k": kind, "n": num, "e": e})
+        meta.append((kind, x, num, e))
+    bad = 0
+    for (kind, x, num, e), r in zip(meta, drv.ask_many(reqs)):
+        ctx.count("numhash:values")
+        ctx.count("numhash:" + ("integral" if e == 0 else "fractional") + ":" + ("float" if kind in FLOAT_KINDS else "int"))
+        real = hash(x)
+        want = {"spec": real, "kind": real, "double": hash(float(x)) if e > 0 or abs(num) < 2 ** 53 else None}
+        if e == 0:
+            want["int"] = hash(int(num))
+        for f, w in want.items():
+            if w is not None and r.get(f) != w and bad < 5:
+                bad += 1
+                ctx.tie_broken("correspondence:numeric-hash", f"{kind} {x!r} (= {num} / 2**{e}): CPython hash {w}, model `{f}` {r.get(f)}")
+        if e == 0 and r["int"] != r["double"]:
+            raise core.MachineryError(f"driver contradicts int_float_hash_agree on {num}")
+        if r["spec"] != r["kind"]:
+            raise core.MachineryError(f"driver contradicts hashNum_eq_numHash on {kind} {num}/2**{e}")
+
+
 def correspondence_stack(ctx, drv):
     """The model of the `with` protocol against CPython's `with` on the real context managers."""
     import einx
@@ -937,6 +1057,7 @@ def run(ctx):
         t0 = time.time()
         collisions, _ = correspondence_values(ctx, drv, table, 20000 if ctx.quick else 300000)
         ctx.extra["seconds_values"] = round(time.time() - t0, 1)
+        correspondence_numhash(ctx, drv)
         correspondence_stack(ctx, drv)
     ctx.extra["key_collisions_with_different_observation"] = len(collisions)
     full_theorem = bool(ctx.extra.get("table_status", {}).get("tagsAll")) and ctx.lean_ok
@@ -974,7 +1095,17 @@ def run(ctx):
         n_hist = (20 if ctx.quick else 500) if not broken else (24 if ctx.quick else 800)
         t0 = time.time()
         plan = Plan(ctx.rng, ctx.quick)
-        found = search(ctx, srv, plan, n_hist, directed)
+        mandatory = mandatory_histories(ctx)
+        ctx.extra["mandatory_ordered_pairs"] = [label for label, _, _ in mandatory_pairs()]
+        found = search(ctx, srv, plan, n_hist, directed, mandatory)
+        # evidence: a pair can only expose a confusion of its members if their pristine outcomes differ
+        mp = mandatory_pairs()
+        cm = srv.cold([c for _, a, b in mp for c in (a, b)])
+        same = [label for (label, _, _), i in zip(mp, range(0, len(cm), 2)) if same_outcome(cm[i], cm[i + 1])]
+        ctx.count("mandatory:pairs", len(mp))
+        ctx.count("mandatory:pairs_with_different_pristine_outcomes", len(mp) - len(same))
+        if same and not ctx.broken and not found:
+            raise core.MachineryError(f"mandatory pairs whose members have the same pristine outcome (the pair cannot expose a confusion): {same}")
         ctx.extra["seconds_search"] = round(time.time() - t0, 1)
         t0 = time.time()
         if ctx.driver_ok:
